@@ -132,4 +132,19 @@ pub broadcast group group_str_slice_1 {
     axiom_str_index_to_1, axiom_str_index_to_1_val, axiom_str_index_from_1, axiom_str_index_from_1_val,
 }
 
+// ---- &str patterns (strip_suffix / trim_end_matches / split ...) ----
+pub uninterp spec fn pat_str_of<P>(p: P) -> Option<Seq<char>>;
+pub broadcast axiom fn axiom_pat_str<'a>(s: &'a str)
+    ensures #[trigger] pat_str_of::<&'a str>(s) == Some(s@);
+
+pub open spec fn ends_with(s: Seq<char>, p: Seq<char>) -> bool { p.len() <= s.len() && s.skip(s.len() - p.len()) == p }
+pub open spec fn starts_with(s: Seq<char>, p: Seq<char>) -> bool { p.len() <= s.len() && s.take(p.len() as int) == p }
+
+pub assume_specification<'a, P: core::str::pattern::Pattern>[ str::strip_suffix::<P> ](s: &'a str, suffix: P) -> (r: Option<&'a str>)
+    where for<'b> <P as core::str::pattern::Pattern>::Searcher<'b>: core::str::pattern::ReverseSearcher<'b>,
+    ensures pat_str_of(suffix) is Some ==> (match r {
+        Some(t) => ends_with(s@, pat_str_of(suffix)->0) && t@ == s@.take(s@.len() - pat_str_of(suffix)->0.len()),
+        None => !ends_with(s@, pat_str_of(suffix)->0),
+    });
+
 } // verus!
